@@ -322,6 +322,42 @@ class Gen:
         self.count("restricted_join")
         return True
 
+    def unpriv_attempt(self):
+        """a plain member (not the channel operator) tries the privileged commands, in all the shapes that mix
+        queries with changes"""
+        r = self.rng
+        cands = [(c, sid) for c, sid in self.chanop.items() if sid in self.sessions and "," not in c]
+        plain = [sid for sid, x in self.sessions.items() if x.get("registered") and not x.get("server")]
+        if not cands or len(plain) < 2:
+            return False
+        c, op = r.choice(cands)
+        who = r.choice([x for x in plain if x != op] or plain)
+        if r.random() < 0.7:
+            self.line(who, "JOIN " + c)
+        n = self.sessions[op].get("nick") or self.nick()
+        me = self.sessions[who].get("nick") or self.nick()
+        for _ in range(r.choice([1, 2, 3])):
+            k = r.random()
+            if k < 0.55:
+                ms = r.choice(["+b-i", "+b-k", "+b-t", "+bt", "b+i", "+kb", "+b-i-k-t", "-t", "+i", "+o", "-o", "+k", "+b", "+bo", "+ob", "-b+b", "+s+b"])
+                args = []
+                for ch in ms:
+                    if ch in "ok":
+                        args.append(r.choice([me, n, r.choice(KEYS)]))
+                    elif ch == "b" and r.random() < 0.4:
+                        args.append(self.mask())
+                text = ("MODE %s %s %s" % (c, ms, " ".join(args))).rstrip()
+            elif k < 0.7:
+                text = "KICK %s %s :%s" % (c, n, r.choice(TEXTS[:4]))
+            elif k < 0.85:
+                text = "TOPIC %s :%s" % (c, r.choice(TEXTS[:4]))
+            else:
+                text = "INVITE %s %s" % (self.nick(), c)
+            self.line(who, text)
+        self.line(r.choice([op, who]), "MODE " + c)
+        self.count("unpriv_attempt")
+        return True
+
     def priv_action(self):
         """a privileged command issued by a session that really holds the privilege"""
         r = self.rng
@@ -451,6 +487,8 @@ class Gen:
             elif x < 0.43 and self.case_nick():
                 pass
             elif x < 0.46 and self.restricted_join():
+                pass
+            elif x < 0.50 and self.unpriv_attempt():
                 pass
             else:
                 self.client_line(r.choice(live))
